@@ -4,7 +4,7 @@
    Not proved (trusted mathematics): that every canonical star graph of type B1/B2/B3 generates
    sp/so/su of the stated size, and that equal invariants imply isomorphism (arXiv:2408.00081).
    The implementation's answer is compared with the invariants of the verified closure per input. *)
-From PauLie Require Import Pauli Sym ClT ClSym PathT StarClosureT ClosureN ClosureT Star StarT.
+From PauLie Require Import Pauli Sym ClT ClSym PathT StarClosureT ClosureN ClosureT Star StarT GraphDetT.
 
 Theorem C01_closure_oracle_exact : forall n G L, closure_strs n G = Some L ->
   forall p, length p = n -> (In p L <-> Cl P mul anti (fun a => In a (map enc G)) (enc p)).
@@ -49,3 +49,24 @@ Theorem C01_star_closure : forall (c : P) (ls : list P),
   forall p, ClS (StarClosureT.G P c ls) p <-> InStar P mul pid c ls p.
 Proof. exact s_star_closure. Qed.
 Print Assumptions C01_star_closure.
+
+(* the principle behind classifying by canonical graphs: the closure of a generating list is the set of products of
+   selections, and which selections occur depends only on the anticommutation pattern of the list — for ANY two lists
+   with the same pattern (on any numbers of qubits) the same selections give closure members; with independent
+   generators on both sides the two algebras have the same dimension *)
+Theorem C01_closure_by_selections : forall gs hs p, same_pattern gs hs -> ClS (fun g => In g gs) p ->
+  exists s, length s = length gs /\ p = sprod s gs /\ ClS (fun h => In h hs) (sprod s hs).
+Proof. exact closure_by_selections. Qed.
+Print Assumptions C01_closure_by_selections.
+Theorem C01_graph_determines_size : forall gs hs, same_pattern gs hs -> independent gs -> independent hs ->
+  forall LQ, NoDup LQ -> (forall q, In q LQ <-> ClS (fun h => In h hs) q) ->
+  exists LP, NoDup LP /\ (forall p, In p LP <-> ClS (fun g => In g gs) p) /\ length LP = length LQ.
+Proof. exact graph_determines_size. Qed.
+Print Assumptions C01_graph_determines_size.
+(* non-vacuity: X, Z on one qubit and XI, ZI... the pair (X_0, Z_0 Z_1) on two qubits have the same pattern *)
+Example C01_same_pattern_example : same_pattern [(1, 0); (0, 1)]%N [(1, 0); (0, 3)]%N.
+Proof.
+  split; [reflexivity|]. intros [|[|i]] [|[|j]] Hi Hj; cbn in *; try reflexivity;
+    repeat match goal with H : (S _ < _)%nat |- _ => apply PeanoNat.Nat.succ_lt_mono in H end;
+    match goal with H : (_ < 0)%nat |- _ => inversion H end.
+Qed.
